@@ -1,8 +1,8 @@
-\* exhaustive, every edge printed and replayed: 2 users, 3 passwords (two key-equivalent
+\* exhaustive, every edge printed and replayed: 2 users (one name a dotted prefix of the other), 3 passwords (two key-equivalent
 \* under scrypt), 2 parameter sets (scrypt, argon2id), both defaults
 SPECIFICATION Spec
 CONSTANTS
-    Users = {"u1", "u2"}
+    Users = {"u1", "u1.b"}
     BadNames = {}
     Pws = {"p1", "p1z", "p2"}
     Sets = {1, 2}
